@@ -1,9 +1,223 @@
 import SoundeventModel.Ops.Common
+import SoundeventModel.Crowsetta
 namespace SE.Ops.C10
-open Lean SE
+open Lean SE SE.Crowsetta
 
-def handle (op : String) (_a : Json) : Except String Json := do
+/-! JSON glue of C10.
+
+  functions travel as finite tables with a default:
+    {"table": [[key, res], …], "default": res}
+  res (tag functions / tag mapping entries): {"single": tag} | {"many": [tag, …]} | {"raise": "invalid" | "key" | …}
+  res (label functions):                     {"ret": "label"} | {"raise": …}
+-/
+
+def getErr (s : String) : Except String Err :=
+  match s with
+  | "invalid" => .ok .invalid
+  | "key" => .ok .key
+  | "notimpl" => .ok .notImpl
+  | "type" => .ok .type
+  | _ => .error s!"unknown error class {s}"
+
+def getTerm (j : Json) : Except String Crowsetta.Term := do
+  return ⟨← fldStr j "label", ← fldStr j "name", ← fldStr j "definition"⟩
+
+def getTag (j : Json) : Except String Tag := do
+  return ⟨← getTerm (← fld j "term"), ← fldStr j "value"⟩
+
+def getTags (j : Json) : Except String (List Tag) := do (← getArr j).mapM getTag
+
+def getTagRes (j : Json) : Except String TagRes :=
+  match fldOpt j "single", fldOpt j "many" with
+  | some t, _ => do return .single (← getTag t)
+  | none, some ts => do return .many (← getTags ts)
+  | none, none => .error "expected {single} or {many}"
+
+def getRet (j : Json) : Except String String := fldStr j "ret"
+
+def getFnRes {α} (dec : Json → Except String α) (j : Json) : Except String (Except Err α) :=
+  match fldOpt j "raise" with
+  | some e => do return .error (← getErr (← e.getStr?))
+  | none => do return .ok (← dec j)
+
+def getFn {κ α} [BEq κ] (deck : Json → Except String κ) (decv : Json → Except String α) (j : Json) :
+    Except String (κ → Except Err α) := do
+  let tbl ← (← fldArr j "table").mapM (fun p => do
+    match ← getArr p with
+    | [k, v] => return (← deck k, ← getFnRes decv v)
+    | _ => throw "table entry must be a pair")
+  let d ← getFnRes decv (← fld j "default")
+  return fun k => (tbl.lookup k).getD d
+
+def getMap {κ α} (deck : Json → Except String κ) (decv : Json → Except String α) (j : Json) :
+    Except String (List (κ × α)) := do
+  (← getArr j).mapM (fun p => do
+    match ← getArr p with
+    | [k, v] => return (← deck k, ← decv v)
+    | _ => throw "mapping entry must be a pair")
+
+def optM {α} (j : Json) (k : String) (dec : Json → Except String α) : Except String (Option α) :=
+  match fldOpt j k with
+  | none => .ok none
+  | some v => do return some (← dec v)
+
+def jStr (j : Json) : Except String String := j.getStr?
+
+def getLabelOpts (j : Json) : Except String LabelOpts := do
+  let d : LabelOpts := {}
+  return {
+    tagFn := ← optM j "tag_fn" (getFn jStr getTagRes)
+    tagMapping := ← optM j "tag_mapping" (getMap jStr getTagRes)
+    termMapping := ← optM j "term_mapping" (getMap jStr getTerm)
+    keyMapping := ← optM j "key_mapping" (getMap jStr jStr)
+    key := ← optM j "key" jStr
+    term := ← optM j "term" getTerm
+    fallback := (← optM j "fallback" jStr).getD d.fallback
+    emptyLabels := (← optM j "empty_labels" (fun a => do (← getArr a).mapM jStr)).getD d.emptyLabels }
+
+def getTagKw (j : Json) : Except String TagKw := do
+  return {
+    labelFn := ← optM j "label_fn" (getFn getTag getRet)
+    labelMapping := ← optM j "label_mapping" (getMap getTag jStr)
+    valueOnly := ← optM j "value_only" (·.getBool?) }
+
+def getTagsOpts (j : Json) : Except String TagsOpts := do
+  let d : TagsOpts := {}
+  return {
+    seqLabelFn := ← optM j "seq_label_fn" (getFn getTags getRet)
+    selectByKey := ← optM j "select_by_key" jStr
+    index := ← optM j "index" (·.getInt?)
+    separator := (← optM j "separator" jStr).getD d.separator
+    emptyLabel := (← optM j "empty_label" jStr).getD d.emptyLabel
+    kw := ← getTagKw j }
+
+def optsOf {α} (a : Json) (dec : Json → Except String α) : Except String α :=
+  dec ((fldOpt a "opts").getD (Json.mkObj []))
+
+def termJ (t : Crowsetta.Term) : Json :=
+  Json.mkObj [("label", Json.str t.label), ("name", Json.str t.name), ("definition", Json.str t.defn)]
+def tagJ (t : Tag) : Json := Json.mkObj [("term", termJ t.term), ("value", Json.str t.value)]
+def tagsJ (ts : List Tag) : Json := arrJ (ts.map tagJ)
+
+def getSegment (j : Json) : Except String Segment := do
+  return ⟨← fldStr j "label", ← fldOptRat j "onset_s", ← fldOptRat j "offset_s",
+          ← optM j "onset_sample" (·.getInt?), ← optM j "offset_sample" (·.getInt?)⟩
+
+def segmentJ (s : Segment) : Json :=
+  Json.mkObj [("label", Json.str s.label), ("onset_s", optJ ratJ s.onsetS), ("offset_s", optJ ratJ s.offsetS),
+              ("onset_sample", optJ intJ s.onsetSample), ("offset_sample", optJ intJ s.offsetSample)]
+
+def getBBox (j : Json) : Except String BBox := do
+  return ⟨← fldRat j "onset", ← fldRat j "offset", ← fldRat j "low_freq", ← fldRat j "high_freq",
+          ← fldStr j "label"⟩
+
+def bboxJ (b : BBox) : Json :=
+  Json.mkObj [("onset", ratJ b.onset), ("offset", ratJ b.offset), ("low_freq", ratJ b.lowFreq),
+              ("high_freq", ratJ b.highFreq), ("label", Json.str b.label)]
+
+def getRec (j : Json) : Except String Rec := do
+  return { samplerate := ← fldRat j "samplerate", te := ← fldRat j "te",
+           path := (← optM j "path" jStr).getD "rec.wav" }
+
+def getAnn (j : Json) : Except String Ann := do
+  return ⟨← optM j "geometry" getGeom, ← getTags (← fld j "tags")⟩
+
+def annJ (a : Ann) : Json := Json.mkObj [("geometry", optJ geomJ a.geom), ("tags", tagsJ a.tags)]
+def annsJ (as : List Ann) : Json := arrJ (as.map annJ)
+
+def getCrowAnn (j : Json) : Except String CrowAnn := do
+  return ⟨← optM j "notated_path" jStr, ← (← fldArr j "bboxes").mapM getBBox,
+          ← (← fldArr j "seqs").mapM (fun s => do (← getArr s).mapM getSegment)⟩
+
+def crowAnnJ (c : CrowAnn) : Json :=
+  Json.mkObj [("notated_path", optJ Json.str c.notatedPath), ("bboxes", arrJ (c.bboxes.map bboxJ)),
+              ("seqs", arrJ (c.seqs.map (fun s => arrJ (s.map segmentJ))))]
+
+def clipAnnJ (c : ClipAnn) : Json :=
+  Json.mkObj [("sound_events", annsJ c.soundEvents), ("sequences", arrJ (c.sequences.map annsJ))]
+
+def getFmt (s : String) : Fmt :=
+  match s with
+  | "bbox" => .bbox
+  | "seq" => .seq
+  | _ => .other
+
+def defaultsJ (d : Defaults) : Json :=
+  Json.mkObj [("fallback", Json.str d.fallback), ("empty_label", Json.str d.emptyLabel),
+    ("tag_separator", Json.str d.tagSeparator), ("join_separator", Json.str d.joinSeparator),
+    ("value_only", boolJ d.valueOnly), ("seg_cast", boolJ d.segCast), ("seq_cast", boolJ d.seqCast),
+    ("seq_ignore", boolJ d.seqIgnore), ("box_cast", boolJ d.boxCast), ("box_raise_time", boolJ d.boxRaiseTime),
+    ("ann_ignore", boolJ d.annIgnore), ("ann_cast", boolJ d.annCast), ("adjust", boolJ d.adjust)]
+
+def handle (op : String) (a : Json) : Except String Json := do
   match op with
+  | "term_key" =>
+    let t := termFromKey (← fldStr a "key")
+    return Json.mkObj [("term", termJ t), ("key", Json.str (keyFromTerm t))]
+  | "defaults" => return defaultsJ defaults
+  | "label_to_tags" =>
+    return exceptJ tagsJ (labelToTags (← optsOf a getLabelOpts) (← fldStr a "label"))
+  | "label_to_tags_pinned" =>
+    return exceptJ tagsJ (Pinned.labelToTags (← optsOf a getLabelOpts) (← fldStr a "label"))
+  | "label_from_tag" =>
+    let sep := (← optM a "separator" jStr).getD defaults.tagSeparator
+    return exceptJ Json.str (labelFromTag (← optsOf a getTagKw) sep (← getTag (← fld a "tag")))
+  | "label_from_tags" =>
+    return exceptJ Json.str (labelFromTags (← optsOf a getTagsOpts) (← getTags (← fld a "tags")))
+  | "label_from_tags_pinned" =>
+    return exceptJ Json.str (Pinned.labelFromTags (← optsOf a getTagsOpts) (← getTags (← fld a "tags")))
+  | "import_segment" =>
+    return exceptJ annJ (importSegment (← optsOf a getLabelOpts) (← fldBool a "adjust") (← getRec (← fld a "rec"))
+      (← getSegment (← fld a "segment")))
+  | "import_bbox" =>
+    return exceptJ annJ (importBBox (← optsOf a getLabelOpts) (← fldBool a "adjust") (← getRec (← fld a "rec"))
+      (← getBBox (← fld a "bbox")))
+  | "import_sequence" =>
+    return exceptJ annsJ (importSequence (← optsOf a getLabelOpts) (← fldBool a "adjust") (← getRec (← fld a "rec"))
+      (← (← fldArr a "segments").mapM getSegment))
+  | "import_annotation" =>
+    return exceptJ clipAnnJ (importAnnotation (← optsOf a getLabelOpts) (← fldBool a "adjust")
+      (← getRec (← fld a "rec")) (← getCrowAnn (← fld a "crow")))
+  | "export_segment" =>
+    return exceptJ segmentJ (exportSegment (← optsOf a getTagsOpts) (← fldBool a "cast") (← fldRat a "sr")
+      (← getAnn (← fld a "ann")))
+  | "export_bbox" =>
+    return exceptJ bboxJ (exportBBox (← optsOf a getTagsOpts) (← fldBool a "cast") (← fldBool a "raise_time")
+      (← fldRat a "sr") (← getAnn (← fld a "ann")))
+  | "export_sequence" =>
+    return exceptJ (fun ss => arrJ (ss.map segmentJ)) (exportSequence (← optsOf a getTagsOpts) (← fldBool a "cast")
+      (← fldBool a "ignore") (← fldRat a "sr") (← (← fldArr a "anns").mapM getAnn))
+  | "export_annotation" =>
+    return exceptJ crowAnnJ (exportAnnotation (← optsOf a getTagsOpts) (getFmt (← fldStr a "fmt"))
+      (← fldBool a "ignore") (← fldBool a "cast") (← fldBool a "raise_time") (← getRec (← fld a "rec"))
+      (← (← fldArr a "anns").mapM getAnn))
+  -- round trips: export after import, the label options of both directions given
+  | "roundtrip_segment" =>
+    return exceptJ segmentJ (roundtripSegment (← optsOf a getLabelOpts) (← exOpts a) (← fldBool a "adjust")
+      (← fldBool a "cast") (← getRec (← fld a "rec")) (← getSegment (← fld a "segment")))
+  | "roundtrip_bbox" =>
+    return exceptJ bboxJ (roundtripBBox (← optsOf a getLabelOpts) (← exOpts a) (← fldBool a "adjust")
+      (← fldBool a "cast") (← fldBool a "raise_time") (← getRec (← fld a "rec")) (← getBBox (← fld a "bbox")))
+  | "roundtrip_sequence" =>
+    return exceptJ (fun ss => arrJ (ss.map segmentJ)) (roundtripSequence (← optsOf a getLabelOpts) (← exOpts a)
+      (← fldBool a "adjust") (← fldBool a "cast") (← fldBool a "ignore") (← getRec (← fld a "rec"))
+      (← (← fldArr a "segments").mapM getSegment))
+  | "roundtrip_annotation" =>
+    return exceptJ crowAnnJ (roundtripAnnotation (← optsOf a getLabelOpts) (← exOpts a) (getFmt (← fldStr a "fmt"))
+      (← fldBool a "adjust") (← fldBool a "ignore") (← fldBool a "cast") (← fldBool a "raise_time")
+      (← getRec (← fld a "rec")) (← getCrowAnn (← fld a "crow")))
+  -- executable statements of the round trip on the implementation's own I/O
+  | "rt_segment_ok" =>
+    return boolJ (rtSegmentOk (← fldRat a "sr") (← getSegment (← fld a "x")) (← getSegment (← fld a "y")))
+  | "rt_bbox_ok" =>
+    return boolJ (decide ((← getBBox (← fld a "x")) = (← getBBox (← fld a "y"))))
+  | "rt_sequence_ok" =>
+    return boolJ (rtSeqOk (← fldRat a "sr") (← (← fldArr a "x").mapM getSegment) (← (← fldArr a "y").mapM getSegment))
+  | "rt_annotation_ok" =>
+    return boolJ (rtAnnOk (← fldRat a "sr") (← getCrowAnn (← fld a "x")) (← getCrowAnn (← fld a "y")))
   | _ => .error s!"C10: unknown op {op}"
+where
+  exOpts (a : Json) : Except String TagsOpts :=
+    getTagsOpts ((fldOpt a "export_opts").getD (Json.mkObj []))
 
 end SE.Ops.C10
